@@ -311,7 +311,8 @@ class Ctx:
             if src is not None:
                 # the searched container: first slice::iter / direct str receiver
                 cont = None
-                for y in T.walk(src):
+                direct = "str" in c and c.endswith(("::find", "::rfind"))
+                for y in ([] if direct else T.walk(src)):
                     if y[0] == "call" and (y[1].endswith("::iter") or y[1].endswith("::windows") or y[1].endswith("::chars") or y[1].endswith("::bytes")) and y[2]:
                         cont = y[2][0]
                         break
